@@ -1,4 +1,5 @@
 import CnlProofs.Parse
+import CnlModel.Deduce
 /-!
 # C15 — literals, parsing and constant-driven deduction yield exactly the written value
 
@@ -54,12 +55,25 @@ What is proved, for tokens of ANY length and result types of ANY width:
   radix pair and fuel.
 * `descale_normalise` — the phase the repair added to the `Precise` loop: with `in_exponent = 0` a
   significand `m·R^k` (`R ∤ m`) leaves the loop as `(m, exponent + k)`, for every `k`, `m`, `R ≥ 2`.
+* `from_value` and class template argument deduction (model `CnlModel.Deduce`):
+  `from_value_constant_exact` — for EVERY archetype of the type grammar (built-in, `scaled_integer` of any radix and
+  exponent, `elastic_integer`, `wide_integer`, `overflow_integer`, `rounding_integer`, any nest) and every constant `V`,
+  the type deduced by `from_value<Archetype>(constant<V>)` scales its representation by a power of two `2^tz` and
+  `rep · 2^tz = V`; `from_value_constant_radix_free` — the archetype's radix and exponent do not enter that type;
+  `from_value_value_exact` — for a run-time value of a built-in type the representation is the value, exponent 0;
+  `fraction_guide_holds_significand` — the component type promised by `fraction(float | double | long double)` holds
+  every significand of the format (and its negation); `ctad_alias_int_exact` — the alias templates have no guide:
+  `scaled_integer{v}`, `elastic_integer{v}`, … are the default arguments and hold whatever fits `int`.
+  By correspondence only: the value search behind `fraction{floating}` (that is property C17's `make_fraction`; its
+  model is run by the driver for the deduced component type, and the oracle asks that the result convert back to the
+  initializer) and the initializers the default arguments cannot hold (candidate finding `C15.ctad_default_arguments`:
+  `scaled_integer{1L << 40}` is `scaled_integer<int>` holding 0; exercised only when that class is listed as open).
 * Open class: `static_number_lowest_traps` (`make_static_number(std::int16_t{-32768})`: the type is
   deduced from the argument's type, `numeric_limits<T>::digits` digits, whose symmetric range has no
   room for `lowest()`; listed in findings/C15.json, no wrong value is produced).
 -/
 namespace Cnl.C15
-open Cnl Cnl.Parse Cnl.Token Cnl.ParseProofs
+open Cnl Cnl.Parse Cnl.Token Cnl.ParseProofs Cnl.Deduce
 
 /-- the strides of the four bases never overflow an `int64` chunk -/
 theorem chunk_fits : 10 ^ 18 ≤ 2 ^ 63 ∧ 16 ^ 15 ≤ 2 ^ 63 ∧ 8 ^ 21 ≤ 2 ^ 63 ∧ 2 ^ 63 ≤ 2 ^ 63 :=
@@ -363,6 +377,127 @@ theorem static_number_lowest_traps :
     makeFromValue "static_number" i16 (-32768) = some (.trap false) ∧
     makeFromValue "static_number" i16 (-32767) = some (.ok ⟨.sc (staticIntegerTy 15) 0 2, .builtin i32, -32767⟩) := by decide
 
+/-! ### `from_value` and class template argument deduction -/
+
+/-- a `Res` that is a bind and ends in `ok` -/
+theorem bind_eq_ok {α β : Type} {x : Res α} {f : α → Res β} {b : β} (h : (x >>= f) = .ok b) :
+    ∃ a, x = .ok a ∧ f a = .ok b := by
+  cases x <;> first | exact ⟨_, rfl, h⟩ | cases h
+
+/-- `from_value<Archetype>(constant<V>)`, for EVERY archetype (any radix, any nest) and every `V`: the deduced type
+scales its representation by a power of TWO, `2^tz`, and `rep · 2^tz = V` -/
+theorem from_value_constant_exact (A : Ty) (V : Int) (m : Made) (h : fromValue A (.const V) = .ok m) :
+    ∃ tz : Nat, scaleOf m.ty = ((tz : Int), 2) ∧ m.value * 2 ^ tz = V := by
+  simp only [fromValue] at h
+  induction A generalizing m with
+  | int t =>
+    simp only [fromValueConst, fromConstInt] at h
+    split at h <;> cases h
+    exact ⟨0, rfl, by simp⟩
+  | flt p => simp [fromValueConst] at h
+  | fr n d _ _ => simp [fromValueConst] at h
+  | sc r e x _ =>
+    simp only [fromValueConst, makeScaledInteger] at h
+    split at h <;> cases h
+    exact ⟨trailingBits V, rfl, shiftOut_exact V⟩
+  | el d n _ =>
+    simp only [fromValueConst, makeElasticInteger] at h
+    obtain ⟨rep, _, h2⟩ := bind_eq_ok h
+    cases h2
+    exact ⟨0, rfl, by simp⟩
+  | wd d n _ =>
+    simp only [fromValueConst] at h
+    split at h
+    · obtain ⟨a, h1, h2⟩ := bind_eq_ok h
+      cases h2
+      simp only [fromConstInt] at h1
+      split at h1 <;> cases h1
+      exact ⟨0, rfl, by simp⟩
+    · cases h
+  | ov r t ih =>
+    simp only [fromValueConst] at h
+    obtain ⟨a, h1, h2⟩ := bind_eq_ok h
+    cases h2
+    exact ih a h1
+  | rd r t ih =>
+    simp only [fromValueConst] at h
+    obtain ⟨a, h1, h2⟩ := bind_eq_ok h
+    cases h2
+    exact ih a h1
+
+/-- the archetype's radix and exponent do not enter the type deduced from a constant -/
+theorem from_value_constant_radix_free (r r' : Ty) (e e' : Int) (x x' : Nat) (V : Int) :
+    fromValue (.sc r e x) (.const V) = fromValue (.sc r' e' x') (.const V) := rfl
+
+/-- `from_value<Archetype>(v)` for a run-time value of a built-in type: the representation is `v` itself and the
+deduced type applies no scale (exponent 0 in the archetype's radix) -/
+theorem from_value_value_exact (A : Ty) (S : IntTy) (v : Int) (m : Made) (h : fromValue A (.val S v) = .ok m) :
+    m.value = v ∧ (scaleOf m.ty).1 = 0 := by
+  simp only [fromValue] at h
+  split at h
+  · rename_i t r ht
+    cases h
+    refine ⟨rfl, ?_⟩
+    cases A with
+    | int _ => simp only [fromValueTy] at ht; cases ht; rfl
+    | sc _ _ _ => simp only [fromValueTy] at ht; cases ht; rfl
+    | ov _ _ => simp only [fromValueTy] at ht; cases ht; rfl
+    | rd _ _ => simp only [fromValueTy] at ht; cases ht; rfl
+    | flt _ => simp [fromValueTy] at ht
+    | fr _ _ => simp [fromValueTy] at ht
+    | el d n =>
+      cases n <;> simp [fromValueTy] at ht
+      obtain ⟨_, _, rfl, _⟩ := ht; rfl
+    | wd d n =>
+      cases n <;> simp [fromValueTy] at ht
+      obtain ⟨rfl, _⟩ := ht; rfl
+  · cases h
+
+/-- the deduction guides of `fraction` for floating-point initializers promise a component type with at least as many
+digits as the format has significand bits, so every significand `m < 2^prec` is a numerator of the deduced type -/
+theorem fraction_guide_holds_significand (prec : Nat) (I : IntTy) (h : fractionGuideFloat prec = some I) (m : Nat)
+    (hm : m < 2 ^ prec) : I.InRange m ∧ I.InRange (-(m : Int)) := by
+  unfold fractionGuideFloat at h
+  have key : ∀ (p : Nat) (J : IntTy), (2 : Int) ^ p ≤ J.max + 1 → J.lowest = -(J.max + 1) → (m : Int) < 2 ^ p →
+      J.InRange m ∧ J.InRange (-(m : Int)) := by
+    intro p J h1 h2 h3
+    unfold IntTy.InRange
+    omega
+  have hm' : (m : Int) < 2 ^ prec := by exact_mod_cast hm
+  split at h
+  · cases h; subst_vars; exact key 24 i32 (by decide) (by decide) hm'
+  · split at h
+    · cases h; subst_vars; exact key 53 i64 (by decide) (by decide) hm'
+    · split at h
+      · cases h; subst_vars; exact key 64 i128 (by decide) (by decide) hm'
+      · cases h
+
+/-- the alias templates have no deduction guide: whatever fits `int` (the lowest `int` excepted for the symmetric
+`static_integer<31>`) is held exactly by `Alias{v}` -/
+theorem ctad_alias_int_exact (a : Alias) (init : Init) (h : i32.InRange init.value) (hs : a = .staticInt → init.value ≠ i32.lowest) :
+    ctadAlias a init = .ok ⟨a.ty, .builtin i32, init.value⟩ := by
+  have hw : i32.wrap init.value = init.value := IntTy.wrap_id (by decide) h
+  have h' := h
+  unfold IntTy.InRange at h'
+  have hmax : i32.max = 2147483647 := by decide
+  have hlow : i32.lowest = -2147483648 := by decide
+  rw [hmax, hlow] at h'
+  cases a with
+  | overflow =>
+    simp only [ctadAlias, hmax, hlow]
+    rw [if_neg (by omega), if_neg (by omega)]
+  | staticInt =>
+    have hne : init.value ≠ -2147483648 := by have := hs rfl; rwa [hlow] at this
+    have hst : staticInit 31 init.value = .ok init.value := by
+      unfold staticInit
+      rw [if_neg (by omega), if_neg (by omega)]
+    simp only [ctadAlias]
+    split <;> simp [hst, hw]
+  | scaled => simp only [ctadAlias, hw]
+  | elastic => simp only [ctadAlias, hw]
+  | rounding => simp only [ctadAlias, hw]
+  | wide => simp only [ctadAlias, hw]
+
 /-! ### non-vacuity -/
 
 example : Located "0x1F'ff".toList ⟨false, false, ⟨16, [1, 15, 15, 15], 0, false⟩⟩ ⟨false, 16, 15, 2, 15, 4, 0⟩ := by
@@ -391,5 +526,10 @@ example : StrideOK 10 18 := Or.inl ⟨rfl, rfl⟩
 example : SignedWide i128 := ⟨rfl, by decide⟩
 example : positional 10 [9, 9, 9, 9] < 2 ^ estimate 10 4 9 := by decide
 example : makeElasticScaledInteger 24 = .ok ⟨.sc (.el 2 (.int i32)) 3 2, .builtin i32, 3⟩ := by decide
+example : fromValue (.sc (.int i32) (-2) 10) (.const 8) = .ok ⟨.sc (.int i32) 3 2, .builtin i32, 1⟩ := by decide
+example : fromValue (.sc (.int i32) (-2) 10) (.val i64 1000) = .ok ⟨.sc (.int i64) 0 10, .builtin i64, 1000⟩ := by decide
+example : fractionGuideFloat 64 = some i128 := by decide
+example : ctadAlias .scaled (.val i64 (2 ^ 40)) = .ok ⟨.sc (.int i32) 0 2, .builtin i32, 0⟩ := by decide
+example : i32.InRange (Init.val i64 (-5)).value := by decide
 
 end Cnl.C15
